@@ -250,9 +250,10 @@ func (fc *FnCtx) freshValR(t types.Type, prefix string, rangeAssume bool) Val {
 			n := fc.freshName(prefix + "." + c)
 			if c == "base" {
 				fc.declareConst(n, "Int")
-			} else {
-				fc.declareConst(n, fc.m.idxSort())
+				v.Sub = append(v.Sub, Val{T: tRef, S: sym(n)})
+				continue
 			}
+			fc.declareConst(n, fc.m.idxSort())
 			v.Sub = append(v.Sub, Val{T: tInt, S: sym(n)})
 		}
 		fc.define(fc.sliceWF(v))
@@ -262,7 +263,7 @@ func (fc *FnCtx) freshValR(t types.Type, prefix string, rangeAssume bool) Val {
 		for _, c := range []string{"tag", "val"} {
 			n := fc.freshName(prefix + "." + c)
 			fc.declareConst(n, "Int")
-			v.Sub = append(v.Sub, Val{T: tInt, S: sym(n)})
+			v.Sub = append(v.Sub, Val{T: tRef, S: sym(n)})
 		}
 		fc.define(sx(">=", v.Sub[0].S, "0"))
 		return v
@@ -322,9 +323,9 @@ func (fc *FnCtx) zeroVal(t types.Type) Val {
 		return Val{T: t, S: "0"}
 	case KSlice:
 		z := m.intConstI(0, tInt)
-		return Val{T: t, Sub: []Val{{T: tInt, S: "0"}, {T: tInt, S: z}, {T: tInt, S: z}, {T: tInt, S: z}}}
+		return Val{T: t, Sub: []Val{{T: tRef, S: "0"}, {T: tInt, S: z}, {T: tInt, S: z}, {T: tInt, S: z}}}
 	case KIface:
-		return Val{T: t, Sub: []Val{{T: tInt, S: "0"}, {T: tInt, S: "0"}}}
+		return Val{T: t, Sub: []Val{{T: tRef, S: "0"}, {T: tRef, S: "0"}}}
 	case KStruct:
 		st := t.Underlying().(*types.Struct)
 		v := Val{T: t}
@@ -406,9 +407,9 @@ func (fc *FnCtx) leafSorts(t types.Type) [][2]string {
 func (fc *FnCtx) buildFromLeaves(t types.Type, get func(suffix string) string) Val {
 	switch kindOf(t) {
 	case KSlice:
-		return Val{T: t, Sub: []Val{{T: tInt, S: get("!base")}, {T: tInt, S: get("!off")}, {T: tInt, S: get("!len")}, {T: tInt, S: get("!cap")}}}
+		return Val{T: t, Sub: []Val{{T: tRef, S: get("!base")}, {T: tInt, S: get("!off")}, {T: tInt, S: get("!len")}, {T: tInt, S: get("!cap")}}}
 	case KIface:
-		return Val{T: t, Sub: []Val{{T: tInt, S: get("!tag")}, {T: tInt, S: get("!val")}}}
+		return Val{T: t, Sub: []Val{{T: tRef, S: get("!tag")}, {T: tRef, S: get("!val")}}}
 	default:
 		return Val{T: t, S: get("")}
 	}
